@@ -137,14 +137,14 @@ func ruleProcessBlockProvenance(r *Run, rule string) {
 	)
 	r.RequireStore(rule, pb, "put key = hash of the created output", "make([]cipher.SHA256, len("+created+"))[i] := coin.UxOut.Hash("+createdW+"[i])")
 	const cu = "coin.CreateUnspents"
-	mk := "local:complit"
-	r.RequireStore(rule, cu, "the literal is stored at index i of an array with one slot per txn.Out element", "make(coin.UxArray, len($1.Out))[i] := local:complit")
+	mk := "*" // the literal under construction, however the compiler materialises it
+	r.RequireStore(rule, cu, "the literal is stored at index i of an array with one slot per txn.Out element", "make(coin.UxArray, len($1.Out))[i] := local:complit", "make(coin.UxArray, len($1.Out))[i] := {*}")
 	r.RequireStore(rule, cu, "created Coins = txn.Out[i].Coins", mk+".Body.Coins := $1.Out[i].Coins")
 	r.RequireStore(rule, cu, "created Hours = txn.Out[i].Hours", mk+".Body.Hours := $1.Out[i].Hours")
 	r.RequireStore(rule, cu, "created Address = txn.Out[i].Address", mk+".Body.Address := $1.Out[i].Address")
 	r.RequireStore(rule, cu, "created SrcTransaction = txn hash (null for genesis)", mk+".Body.SrcTransaction := φ(coin.Transaction.Hash($1)|zero)", mk+".Body.SrcTransaction := φ(zero|coin.Transaction.Hash($1))")
-	r.RequireStore(rule, cu, "created Head.Time = block time", mk+".Head.Time := $0.Time")
-	r.RequireStore(rule, cu, "created Head.BkSeq = block seq", mk+".Head.BkSeq := $0.BkSeq")
+	r.RequireStore(rule, cu, "created Head.Time = block time", mk+".Head.Time := $0.Time", "*.Head := {BkSeq: $0.BkSeq, Time: $0.Time}")
+	r.RequireStore(rule, cu, "created Head.BkSeq = block seq", mk+".Head.BkSeq := $0.BkSeq", "*.Head := {BkSeq: $0.BkSeq, Time: $0.Time}")
 	// one output per txn.Out element: the loop ranges over len(txn.Out) and returns the made array
 	fn := r.P.Fn(cu)
 	if fn != nil {
